@@ -25,6 +25,16 @@ def gen_case(rng, i):
         shape = gen.choice(rng, [(3,), (4,), (2, 3), (5,), (2, 2)])
     lim = 2 if op in ("proxy", "argmax", "argmin", "amax", "amin") else 3
     a = gen.gen_struct(rng, shape=shape, kind=kind, lim=lim, maxexp=2 if rng.random() < .5 else 3)
+    if op in ("lead_exponent", "lead_coefficient", "proxy", "argmax", "amax") and rng.random() < .3:
+        # many terms sharing total degrees (10-24 rows over 2-3 indeterminates), each element using only a few of them:
+        # the graded order of equal-degree monomials matters for every element
+        names = gen.gen_names(rng, 2, 3)
+        import itertools
+        rows = [list(e) for e in itertools.product(range(5), repeat=len(names)) if 2 <= sum(e) <= 4]
+        rows = [rows[int(k)] for k in rng.permutation(len(rows))[: int(rng.integers(10, 25))]]
+        size = int(numpy.prod(shape, dtype=int))
+        a = {"names": names, "shape": list(shape), "dtype": gen.KIND_DTYPE["int"], "kind": "int",
+             "terms": [[e, [int(rng.integers(-2, 3)) if rng.random() < .35 else 0 for _ in range(size)]] for e in rows]}
     if op in ("isconstant", "tonumpy") and rng.random() < .5:
         a = gen.gen_const_struct(rng, shape=shape, kind=kind)
         if rng.random() < .5:   # constant with retained zero non-constant terms
